@@ -1338,6 +1338,19 @@ def c01_cases(ctx, rng=None):
                 mut = data[:off] + v.to_bytes(w, "big") + data[off + w:]
                 cases.append((case_line("bnd%s%d_%d" % (side, off, v), mut if side == "c" else rich.stream("c"),
                                         mut if side == "s" else rich.stream("s")), "boundary", None))
+    # ... and two of them at once (sampled pairs, each value 0 / all ones / 7)
+    for side in "cs":
+        data = rich.stream(side)
+        fields = rich.size_fields(side)
+        pairs = [(a, b) for i, a in enumerate(fields) for b in fields[i + 1:]]
+        for (o1, w1, _), (o2, w2, _) in (rng.sample(pairs, min(len(pairs), 120 if quick else 3000))):
+            for v1 in (0, -1, 7):
+                for v2 in (0, -1, 7):
+                    mut = bytearray(data)
+                    mut[o1:o1 + w1] = (v1 % (1 << (8 * w1))).to_bytes(w1, "big")
+                    mut[o2:o2 + w2] = (v2 % (1 << (8 * w2))).to_bytes(w2, "big")
+                    cases.append((case_line("bp%s%d_%d_%d_%d" % (side, o1, o2, v1, v2), bytes(mut) if side == "c" else rich.stream("c"),
+                                            bytes(mut) if side == "s" else rich.stream("s")), "boundary-pair", None))
     for i in range(300 if quick else 20000):
         cases.append((case_line("rnd%d" % i, gen_random_stream(rng), gen_random_stream(rng), ct=rng.choice([0, 0, 1, 2]),
                                 st=rng.choice([0, 0, 1, 2]), order=rng.choice(["cs", "sc"])), "random", None))
